@@ -129,16 +129,24 @@ func VerifMaxSteps(n int) {}
 // replay driver's wall-clock limit plays that role.
 func VerifStepBudget(n int) {}
 
-// VerifShared runs f(0) and f(1): one after the other under the engine (which
-// flags writes to frozen state), concurrently in two goroutines natively (the
-// replay is built with -race).
-func VerifShared(f func(i int)) {
+// VerifShared runs f(0) and f(1), which must return the same digest: one after
+// the other under the engine (which also flags any write to frozen state),
+// concurrently in two goroutines - many rounds - natively, where the replay is
+// built with -race.
+func VerifShared(f func(i int) string) {
 	verifSched.quiet = true // the step trace is not goroutine-safe (and not compared here)
 	defer func() { verifSched.quiet = false }()
-	done := make(chan struct{})
-	go func() { f(1); close(done) }()
-	f(0)
-	<-done
+	want := f(0)
+	for round := 0; round < 200; round++ {
+		var a, b string
+		done := make(chan struct{})
+		go func() { b = f(1); close(done) }()
+		a = f(0)
+		<-done
+		if a != want || b != want {
+			panic(verifAssertFailed{"concurrent-reads-differ"})
+		}
+	}
 }
 
 // VerifFreeze marks everything reachable from v as shared between readers
